@@ -182,6 +182,16 @@ func (sh c01Shapes) exact(format string, n int, rng *rand.Rand) []int {
 	return out
 }
 
+// c01LongShape: the number (1-based) of the shape whose identifier starts with 'l' (the long record), 0 if none
+func c01LongShape(shapes []c01Shape) int {
+	for i, s := range shapes {
+		if len(s.text) > 1 && strings.HasPrefix(s.text[1:], "l"+c01Serial) {
+			return i + 1
+		}
+	}
+	return 0
+}
+
 func (sh c01Shapes) pick(format string, rng *rand.Rand) int {
 	if rng.Intn(10) < 9 {
 		return 1 // the filler
@@ -473,6 +483,7 @@ func recordC01(env *Env) {
 		at, total      int
 		multi          bool
 		huge           bool
+		longfirst      bool // the file starts with the long record (identifier l......)
 	}
 	var plans []plan
 	for _, format := range []string{"fasta", "fastq", "genbank", "embl"} {
@@ -531,6 +542,13 @@ func recordC01(env *Env) {
 			c := all[env.rng.Intn(len(all))]
 			plans = append(plans, plan{fmt: format, target: c.s, offset: c.o, at: 2*c01MiB - 1 - env.rng.Intn(3000), total: 4*c01MiB + 200000, multi: true})
 		}
+		// files that START with the long record (what a format sniffer sees is less than one record)
+		if c01LongShape(shapes) > 0 {
+			for i := 0; i < 2; i++ {
+				c := all[env.rng.Intn(len(all))]
+				plans = append(plans, plan{fmt: format, target: c.s, offset: c.o, at: c01MiB - 1, total: c01MiB + 3000, longfirst: true})
+			}
+		}
 	}
 	// the 128 MiB buffer of ReadGenbank / ReadEMBL (thorough tier only: one file per format)
 	if env.optInt("flat128", 0) == 1 {
@@ -562,6 +580,9 @@ func recordC01(env *Env) {
 			fmt.Fprintln(os.Stderr, "could not build a file for", p)
 			os.Exit(2)
 		}
+		if p.longfirst {
+			recs = append([]int{c01LongShape(sh[p.fmt])}, recs...)
+		}
 		f := &c01File{n: i, fmt: p.fmt, recs: recs, target: []int{p.target, p.offset}}
 		f.data, f.starts = sh.render(p.fmt, recs)
 		s := sh[p.fmt][p.target-1]
@@ -572,6 +593,9 @@ func recordC01(env *Env) {
 		f.cls = p.fmt + "/" + s.tags[p.offset:p.offset+1] + t2
 		if p.multi {
 			f.cls = p.fmt + "/multi"
+		}
+		if p.longfirst {
+			f.cls = p.fmt + "/longfirst"
 		}
 		f.path = filepath.Join(dir, fmt.Sprintf("big%d%s", i, c01Ext(p.fmt)))
 		f.gz = f.path + ".gz"
@@ -616,7 +640,7 @@ func recordC01(env *Env) {
 				emit(sh.evRead(f, "kseqgz", 1))
 			}
 		}
-		if bindir != "" && (i%cmdEvery == 0 || p.multi) {
+		if bindir != "" && (i%cmdEvery == 0 || p.multi || p.longfirst) {
 			for _, via := range []string{"file", "stdin", "gz"} {
 				emit(sh.evCmd(f, bindir, via, ws[rng.Intn(len(ws))]))
 			}
